@@ -35,6 +35,19 @@ for f in sorted(glob.glob(os.path.join(ROOT, "tools", "props.d", "C*.json"))):
     n = json.load(open(ev))["coverage"].get("evaluations", "") if os.path.exists(ev) else ""
     prow.append("| %s | %d: %s | %s | %s |" % (pid, len(thms), ", ".join("`%s`" % t for t in thms), n, short(c.get("technique", ""), 200)))
 props_md = "\n".join(prow)
+det = []
+for f in sorted(glob.glob(os.path.join(ROOT, "tools", "props.d", "C*.json"))):
+    pid = os.path.basename(f)[:-5]
+    c = json.load(open(f))
+    det.append("#### %s — as built\n" % pid)
+    det.append("*What is proved and how it is tied to the code.* " + re.sub(r"\s+", " ", c.get("level_text", "")).strip() + "\n")
+    det.append("*Assumed / trusted / not covered.* " + re.sub(r"\s+", " ", c.get("level_note", "")).strip() + "\n")
+    if c.get("rule"): det.append("*Cases.* " + re.sub(r"\s+", " ", c["rule"]).strip() + "\n")
+    tb = c.get("trusted_base", [])
+    if tb: det.append("*Property-specific trusted base.* " + "; ".join(re.sub(r"\s+", " ", t).strip() for t in tb) + "\n")
+    tr = c.get("translators", [])
+    if tr: det.append("*Translators (regenerate coq/gen on every run).* " + ", ".join("`tools/%s`" % t for t in tr) + "\n")
+details_md = "\n".join(det)
 p = os.path.join(ROOT, "DESIGN.md"); s = open(p).read()
 def put(s, tag, body):
     a, b = "<!-- BEGIN %s -->" % tag, "<!-- END %s -->" % tag
@@ -42,6 +55,6 @@ def put(s, tag, body):
         return s
     i, j = s.index(a) + len(a), s.index(b)
     return s[:i] + "\n" + body + "\n" + s[j:]
-s = put(s, "FINDINGS", findings_md); s = put(s, "SEEDS", seeds_md); s = put(s, "PROPS", props_md)
+s = put(s, "PROPDETAILS", details_md); s = put(s, "FINDINGS", findings_md); s = put(s, "SEEDS", seeds_md); s = put(s, "PROPS", props_md)
 open(p, "w").write(s)
 print("tables regenerated: %d findings, %d seeds" % (len(rows), len(srows) - 2))
